@@ -1290,6 +1290,11 @@ class TaintDomain(Domain):
             return {O}
         if name == 'builtins.getattr':
             return self.getattr_(args, e, st)
+        if name == 'builtins.enumerate' and a0 is not None and \
+                kind(a0) == 'COLL':
+            # pairs (index, element): the loop target takes the element
+            # atoms (the index gets them too, harmlessly)
+            return {a0}
         if name in ('builtins.list', 'builtins.tuple', 'builtins.sorted',
                     'builtins.reversed', 'builtins.dict'):
             if a0 is None:
